@@ -130,13 +130,19 @@ Universe == <<
     Cls("Re", <<"U">>, Ty("Box", <<Iter(TVar("U"))>>), <<Mth("one", TVar("U"))>>),
     Cls("MyIter", <<"T">>, Iter(TVar("T")), <<Mth("Last", TVar("T"))>>),
     Cls("JetIter", <<>>, Ty("MyIter", <<Ty0("Jet")>>), <<>>),
+    \* a plain subclass of a non-generic subclass of a generic class (no parameterised base of its own)
+    Cls("CalibIter", <<>>, Ty0("JetIter"), <<Mth("ncal", IntT)>>),
+    \* two type parameters, and a generic subclass that hands them to its base in the other order
+    Cls("Two", <<"T", "U">>, NoAnn, <<Mth("first", TVar("T")), Mth("second", TVar("U"))>>),
+    Cls("Swap", <<"T", "U">>, Ty("Two", <<TVar("U"), TVar("T")>>), <<Mth("mine", TVar("T"))>>),
     DCls("Part", <<Mth("pt", FloatT), Mth("idx", IntT), Mth("parent", Ty0("Part")),
                    Mth("kids", Iter(Ty0("Part")))>>, <<Mth("good", BoolT)>>),
     Cls("Evt", <<>>, NoAnn, <<Mth("met", FloatT), Mth("nj", IntT), Mth("flag", BoolT), Mth("part", Ty0("Part")),
                               Mth("jets", Iter(Ty0("Jet"))), Mth("trks", Iter(Ty0("Trk"))),
                               Mth("box", Ty("Box", <<Ty0("Jet")>>)), Mth("jb", Ty0("JetBox")),
                               Mth("re", Ty("Re", <<Ty0("Trk")>>)), Mth("jetiter", Ty0("JetIter")),
-                              Mth("myiter", Ty("MyIter", <<Ty0("Trk")>>)), Mth("noann", NoAnn)>>) >>
+                              Mth("myiter", Ty("MyIter", <<Ty0("Trk")>>)), Mth("noann", NoAnn),
+                              Mth("calib", Ty0("CalibIter")), Mth("swap", Ty("Swap", <<Ty0("Jet"), Ty0("Trk")>>))>>) >>
 (* operators a registered collection class adds to every iterable: name -> "elem" | "int" *)
 ExtraCollectionOps == <<Mth("Second", TVar("elem")), Mth("Size2", IntT)>>
 
